@@ -506,6 +506,22 @@ def special():
     return out
 
 
+def special_fresh_names():
+    """User symbols that look like the converters' fresh names (FV0, FV1,
+    ...): each is converted in a brand-new environment, where the fresh-name
+    counter starts at 0."""
+    p = B.Sym('p0', B.BOOL)
+    N = lambda x: ('not', None, (x,))
+    A = lambda *a: ('and', None, a)
+    O = lambda *a: ('or', None, a)
+    fv = [B.Sym('FV%d' % i, B.BOOL) for i in range(6)]
+    return [O(A(fv[0], fv[1]), A(fv[2], p)),
+            ('iff', None, (A(fv[0], fv[1]), O(fv[1], fv[2]))),
+            ('ite', None, (A(fv[0], fv[2]), fv[1], N(A(fv[3], fv[4])))),
+            N(O(A(fv[1], fv[0]), A(fv[0], N(fv[2])), A(fv[3], fv[5]))),
+            O(A(fv[1], fv[2]), A(fv[3], p))]
+
+
 def special_ack():
     FB = B.FUN(B.BV(1), (B.BV(1),))
     x, y, z = (B.Sym('b1_0', B.BV(1)), B.Sym('b1_1', B.BV(1)),
@@ -525,6 +541,25 @@ def special_ack():
         eq(f(('ite', None, (eq(f(x), y), x, y))), x),
     ]
     return out
+
+
+def special_ack_fresh_names():
+    """User symbols that look like Ackermann constants (ack0, ack1, ...),
+    each formula in a brand-new environment."""
+    FB = B.FUN(B.BV(1), (B.BV(1),))
+    x = B.Sym('b1_0', B.BV(1))
+    f = lambda a: B.App('f', FB, (a,))
+    eq = lambda a, b: ('eq', None, (a, b))
+    N = lambda a: ('not', None, (a,))
+    ak = [B.Sym('ack%d' % i, B.BV(1)) for i in range(4)]
+    return [
+        ('and', None, (eq(ak[0], ak[1]), N(eq(f(ak[0]), f(ak[1]))))),
+        ('and', None, (eq(f(ak[0]), ak[1]), eq(f(ak[1]), ak[2]),
+                       N(eq(f(f(ak[0])), ak[2])))),
+        ('or', None, (eq(f(x), ak[0]), eq(f(ak[1]), ak[2]),
+                      N(eq(ak[3], f(ak[3]))))),
+        ('and', None, (eq(ak[1], ak[2]), N(eq(f(ak[1]), f(ak[2]))))),
+    ]
 
 
 def run(rep):
@@ -548,6 +583,17 @@ def run(rep):
                     j += 1
         for b in special_ack():
             if want('ackermann'):
+                ck.check('ackermann', b, j)
+                j += 1
+        for b in special_fresh_names():
+            for proc in procs:
+                if want(proc):
+                    common.fresh_env()
+                    ck.check(proc, b, j)
+                    j += 1
+        for b in special_ack_fresh_names():
+            if want('ackermann'):
+                common.fresh_env()
                 ck.check('ackermann', b, j)
                 j += 1
         # converter objects used for several formulas in a row
